@@ -1133,6 +1133,69 @@ proof fn lemma_push_prefix(ts0: Seq<TypeNode>, ts1: Seq<TypeNode>, ty: Type)
     assert(prefix_same(ts0, ts1));
     lemma_prefix_from(ts0, ts1);
 }
+/// the table of copies only grows
+spec fn seen_ext(a: Map<TyID, TyID>, b: Map<TyID, TyID>) -> bool {
+    forall|k: TyID| #[trigger] a.contains_key(k) ==> b.contains_key(k) && b[k] == a[k]
+}
+spec fn seen_from(a: Map<TyID, TyID>, b: Map<TyID, TyID>) -> bool {
+    forall|o: Map<TyID, TyID>| #[trigger] seen_ext(o, a) ==> seen_ext(o, b)
+}
+proof fn lemma_seen_from(a: Map<TyID, TyID>, b: Map<TyID, TyID>)
+    requires seen_ext(a, b),
+    ensures seen_from(a, b),
+{
+    assert forall|o: Map<TyID, TyID>| #[trigger] seen_ext(o, a) implies seen_ext(o, b) by {
+        assert forall|k: TyID| #[trigger] o.contains_key(k) implies b.contains_key(k) && b[k] == o[k] by { assert(a.contains_key(k)); }
+    }
+}
+/// y is the copy of (the class of) x
+spec fn copied_id(ts: Seq<TypeNode>, m: Map<TyID, TyID>, x: TyID, y: TyID) -> bool {
+    m.contains_key(TyID(rep0(ts, x.0 as int) as usize)) && m[TyID(rep0(ts, x.0 as int) as usize)] == y
+}
+spec fn con_kind(c: Constraint) -> int {
+    match c {
+        Constraint::Add(_) => 0, Constraint::Sub(_) => 1, Constraint::Mul(_) => 2, Constraint::DivTop(_) => 3, Constraint::DivBot(_) => 4,
+        Constraint::DivRes(_) => 5, Constraint::Equ(_) => 6, Constraint::Cmp(_) => 7, Constraint::CmpEqu(_) => 8, Constraint::Neg => 9,
+        Constraint::ConstantIndex(..) => 10, Constraint::Field(..) => 11, Constraint::Num => 12, Constraint::Enum => 13,
+        Constraint::Variant(..) => 14, Constraint::TotalEnum(_) => 15, Constraint::Variable => 16,
+    }
+}
+/// the type id a constraint mentions, if any
+spec fn con_id(c: Constraint) -> Option<TyID> {
+    match c {
+        Constraint::Add(x) => Some(x), Constraint::Sub(x) => Some(x), Constraint::Mul(x) => Some(x), Constraint::DivTop(x) => Some(x),
+        Constraint::DivBot(x) => Some(x), Constraint::DivRes(x) => Some(x), Constraint::Equ(x) => Some(x), Constraint::Cmp(x) => Some(x),
+        Constraint::CmpEqu(x) => Some(x), Constraint::ConstantIndex(_, x) => Some(x), Constraint::Field(_, x) => Some(x),
+        Constraint::Variant(_, x) => x, _ => None,
+    }
+}
+/// what a constraint says besides its kind and its type id
+spec fn con_rest_eq(c: Constraint, d: Constraint) -> bool {
+    match (c, d) {
+        (Constraint::ConstantIndex(i, _), Constraint::ConstantIndex(j, _)) => i == j,
+        (Constraint::Field(n, _), Constraint::Field(m, _)) => n == m,
+        (Constraint::Variant(v, _), Constraint::Variant(w, _)) => v == w,
+        (Constraint::TotalEnum(a), Constraint::TotalEnum(b)) => a@ == b@,
+        _ => true,
+    }
+}
+/// d is the copy of constraint c: the same kind of constraint, about the copy of the type c is about
+#[verifier::opaque]
+spec fn con_copy(ts: Seq<TypeNode>, m: Map<TyID, TyID>, c: Constraint, d: Constraint) -> bool {
+    &&& con_kind(c) == con_kind(d)
+    &&& con_rest_eq(c, d)
+    &&& (con_id(c) is Some <==> con_id(d) is Some)
+    &&& (con_id(c) is Some ==> copied_id(ts, m, con_id(c)->Some_0, con_id(d)->Some_0))
+}
+proof fn lemma_con_copy_intro(ts: Seq<TypeNode>, m: Map<TyID, TyID>, c: Constraint, d: Constraint)
+    requires con_kind(c) == con_kind(d), con_rest_eq(c, d), con_id(c) is Some <==> con_id(d) is Some,
+        con_id(c) is Some ==> copied_id(ts, m, con_id(c)->Some_0, con_id(d)->Some_0),
+    ensures con_copy(ts, m, c, d),
+{ reveal(con_copy); }
+proof fn lemma_con_copy_mono(ts: Seq<TypeNode>, m: Map<TyID, TyID>, m2: Map<TyID, TyID>, c: Constraint, d: Constraint)
+    requires con_copy(ts, m, c, d), seen_ext(m, m2),
+    ensures con_copy(ts, m2, c, d),
+{ reveal(con_copy); }
 /// the copies made so far are nodes of the graph
 spec fn seen_ok(m: Map<TyID, TyID>, n: int) -> bool { forall|k: TyID| #[trigger] m.contains_key(k) ==> (m[k].0 as int) < n }
 
@@ -1841,6 +1904,7 @@ impl TypeChecker {
 //@   props C02 C03 C05 C07
 //@   splitmatch 3
 //@   split 1 { proof { assume(false); } Type::Unknown }
+//@   splitalso 1 { proof { assume(false); } Constraint::Neg }
 //@   attr #[verifier::exec_allows_no_decreases_clause]
 //@   attr #[verifier::loop_isolation(false)]
 //@   ret r
@@ -1930,43 +1994,95 @@ impl TypeChecker {
             seen_ok(final(seen)@, final(self).types@.len() as int), //# C07 inner_copy.copies_are_nodes
             prefix_from(old(self).types@, final(self).types@), //# C02 inner_copy.existing_nodes_keep_type_constraints_and_class
             !old(seen)@.contains_key(TyID(rep0(old(self).types@, old_ty.0 as int) as usize)) ==> shape_eq(ty_of(old(self).types@, old_ty), ty_of(final(self).types@, r)), //# C02,C03,C05 inner_copy.a_fresh_copy_has_the_shape_of_the_original
+            seen_from(old(seen)@, final(seen)@), //# C02 inner_copy.the_table_of_copies_only_grows
+            copied_id(old(self).types@, final(seen)@, old_ty, r), //# C02 inner_copy.the_result_is_recorded_as_the_copy_of_the_class
+            !old(seen)@.contains_key(TyID(rep0(old(self).types@, old_ty.0 as int) as usize)) ==> forall|c: Constraint| #[trigger] cons_of(old(self).types@, old_ty.0 as int).contains(c)
+                ==> exists|d: Constraint| #[trigger] cons_of(final(self).types@, r.0 as int).contains(d) && con_copy(old(self).types@, final(seen)@, c, d), //# C02,C03 inner_copy.a_fresh_copy_carries_a_copy_of_every_deferred_constraint
 //@   endspec
 //@   ghost entry
-        let ghost ts0 = self.types@;
+        let ghost ts0 = self.types@; let ghost m0 = seen@; let ghost p0 = old_ty;
         broadcast use lemma_same_graph_prefix, vstd::std_specs::hash::group_hash_axioms;
         proof { axiom_constraint_key_order(); axiom_string_key_order(); lemma_prefix_refl(ts0); }
+//@   endghost
+//@   ghost before
+//@| if let Some(res) = seen.get(&old_ty) {
+        assert(old_ty == TyID(rep0(ts0, p0.0 as int) as usize)); //# - inner_copy.hint1
 //@   endghost
 //@   ghost after
 //@| let new_ty = self.push_type(Type::Unknown);
         let ghost sp = self.types@;
         proof { lemma_prefix_refl(sp); reveal(push_frame); }
 //@   endghost
+//@   ghost after
+//@| seen.insert(old_ty, new_ty);
+        let ghost m1 = seen@;
+        proof { assert(m1.contains_key(old_ty) && m1[old_ty] == new_ty); assert(seen_ext(m0, m1)); assert(seen_ext(m1, m1)); }
+//@   endghost
 //@   loop 1 binder it
 //@| for (con, span) in hoisted_cons.iter()
             invariant
-                self.copy_inv(old(self), seen@, ts0, sp, new_ty, old_ty), //# C02,C07 inner_copy.loop1.aux1
+                self.copy_inv(old(self), seen@, ts0, sp, new_ty, old_ty), seen_ext(m1, seen@), //# C02,C07 inner_copy.loop1.aux1
                 vstd::std_specs::btree::key_obeys_cmp_spec::<Constraint>(), //# C07 inner_copy.loop1.aux2
                 cons_in_range(hoisted_cons@, self.types@.len() as int), cons_in_range(new_cons@, self.types@.len() as int), //# C07 inner_copy.loop1.aux3
                 forall|j: int| 0 <= j < it.seq().len() ==> hoisted_cons@.dom().contains(*(#[trigger] it.seq()[j]).0), //# - inner_copy.loop1.aux4
+                forall|j: int| 0 <= j < it.index@ ==> exists|d: Constraint| #[trigger] new_cons@.dom().contains(d) && con_copy(ts0, seen@, *(#[trigger] it.seq()[j]).0, d), //# C02,C03 inner_copy.loop1.every_constraint_visited_has_its_copy
 //@   endloop
+//@   ghost loop-body 1
+        let ghost mb = seen@; let ghost nb = new_cons@;
+        proof { assert(seen_ext(mb, mb)); }
+//@   endghost
+//@   ghost after
+//@| new_cons.insert(mapped_con, *span);
+        proof {
+            assert(seen_ext(mb, seen@));
+            assert(con_kind(*con) == con_kind(mapped_con) && con_rest_eq(*con, mapped_con) && (con_id(*con) is Some <==> con_id(mapped_con) is Some)
+                && (con_id(*con) is Some ==> copied_id(ts0, seen@, con_id(*con)->Some_0, con_id(mapped_con)->Some_0))); //# C02,C03 inner_copy.the_copy_of_a_constraint_is_of_the_same_kind_and_about_the_copied_type
+            lemma_con_copy_intro(ts0, seen@, *con, mapped_con);
+            assert(new_cons@.dom().contains(mapped_con) && con_copy(ts0, seen@, *con, mapped_con));
+            assert forall|j: int| 0 <= j < it.index@ implies exists|d: Constraint| #[trigger] new_cons@.dom().contains(d) && con_copy(ts0, seen@, *(#[trigger] it.seq()[j]).0, d) by {
+                let d0 = choose|d: Constraint| #[trigger] nb.dom().contains(d) && con_copy(ts0, mb, *it.seq()[j].0, d);
+                assert(new_cons@.dom().contains(d0));
+                lemma_con_copy_mono(ts0, mb, seen@, *it.seq()[j].0, d0);
+            }
+        }
+//@   endghost
+//@   ghost before
+//@| self.find_node_mut(new_ty).constraints = new_cons;
+        let ghost new_cons_g = new_cons@;
+        proof {
+            assert(hoisted_cons@.dom() == cons_of(ts0, p0.0 as int));
+            assert forall|c: Constraint| #[trigger] hoisted_cons@.dom().contains(c) implies exists|d: Constraint| #[trigger] new_cons_g.dom().contains(d) && con_copy(ts0, seen@, c, d) by { }
+        }
+//@   endghost
 //@   ghost before
 //@| let ty = self.find_type(old_ty);
-        let ghost sq = self.types@;
-        proof { lemma_prefix_refl(sq); }
+        let ghost sq = self.types@; let ghost ml = seen@; let ghost ncl = new_cons_g;
+        proof { lemma_prefix_refl(sq); assert(seen_ext(ml, ml)); }
+//@   endghost
+//@   ghost after
+//@| self.find_node_mut(new_ty).ty = new_type;
+        proof {
+            assert(seen@.contains_key(old_ty) && seen@[old_ty] == new_ty);
+            assert(cons_of(self.types@, new_ty.0 as int) == ncl.dom());
+            assert forall|c: Constraint| #[trigger] cons_of(ts0, p0.0 as int).contains(c) implies exists|d: Constraint| #[trigger] cons_of(self.types@, new_ty.0 as int).contains(d) && con_copy(ts0, seen@, c, d) by {
+                let d0 = choose|d: Constraint| #[trigger] ncl.dom().contains(d) && con_copy(ts0, ml, c, d);
+                lemma_con_copy_mono(ts0, ml, seen@, c, d0);
+            }
+        }
 //@   endghost
 //@   loop 2 binder it
 //@| for ty in tys.iter()
-            invariant self.copy_inv(old(self), seen@, ts0, sq, new_ty, old_ty), ids_below(copied@, self.types@.len() as int), //# C02,C07 inner_copy.loop2.aux1
+            invariant self.copy_inv(old(self), seen@, ts0, sq, new_ty, old_ty), seen_ext(m1, seen@), seen_ext(ml, seen@), ids_below(copied@, self.types@.len() as int), //# C02,C07 inner_copy.loop2.aux1
                 copied@.len() == it.index@, //# C03,C05 inner_copy.loop2.one_copy_per_element
 //@   endloop
 //@   loop 3 binder it
 //@| for ty in args.iter()
-            invariant self.copy_inv(old(self), seen@, ts0, sq, new_ty, old_ty), ids_below(copied@, self.types@.len() as int), //# C02,C07 inner_copy.loop3.aux1
+            invariant self.copy_inv(old(self), seen@, ts0, sq, new_ty, old_ty), seen_ext(m1, seen@), seen_ext(ml, seen@), ids_below(copied@, self.types@.len() as int), //# C02,C07 inner_copy.loop3.aux1
                 copied@.len() == it.index@, //# C03,C05 inner_copy.loop3.one_copy_per_element
 //@   endloop
 //@   loop 4 binder it
 //@| for (name, (span, ty)) in fields.iter()
-            invariant self.copy_inv(old(self), seen@, ts0, sq, new_ty, old_ty), fields_in_range(copied, self.types@.len() as int), vstd::std_specs::btree::key_obeys_cmp_spec::<String>(), //# C02,C07 inner_copy.loop4.aux1
+            invariant self.copy_inv(old(self), seen@, ts0, sq, new_ty, old_ty), seen_ext(m1, seen@), seen_ext(ml, seen@), fields_in_range(copied, self.types@.len() as int), vstd::std_specs::btree::key_obeys_cmp_spec::<String>(), //# C02,C07 inner_copy.loop4.aux1
                 forall|j: int| 0 <= j < it.seq().len() ==> fields@.contains_pair(*(#[trigger] it.seq()[j]).0, *it.seq()[j].1), //# - inner_copy.loop4.aux2
 //@   endloop
 //@   ghost before-loop 5
@@ -1974,11 +2090,11 @@ impl TypeChecker {
 //@   endghost
 //@   loop 5
 //@| for ty in args.iter()
-            invariant self.copy_inv(old(self), seen@, ts0, sq, new_ty, old_ty), ids_below(copied@, self.types@.len() as int), self.types@.len() >= l5, //# C02,C07 inner_copy.loop5.aux1
+            invariant self.copy_inv(old(self), seen@, ts0, sq, new_ty, old_ty), seen_ext(m1, seen@), seen_ext(ml, seen@), ids_below(copied@, self.types@.len() as int), self.types@.len() >= l5, //# C02,C07 inner_copy.loop5.aux1
 //@   endloop
 //@   loop 6 binder it
 //@| for (name, (span, ty)) in fields.iter()
-            invariant self.copy_inv(old(self), seen@, ts0, sq, new_ty, old_ty), fields_in_range(copied, self.types@.len() as int), vstd::std_specs::btree::key_obeys_cmp_spec::<String>(), //# C02,C07 inner_copy.loop6.aux1
+            invariant self.copy_inv(old(self), seen@, ts0, sq, new_ty, old_ty), seen_ext(m1, seen@), seen_ext(ml, seen@), fields_in_range(copied, self.types@.len() as int), vstd::std_specs::btree::key_obeys_cmp_spec::<String>(), //# C02,C07 inner_copy.loop6.aux1
                 forall|j: int| 0 <= j < it.seq().len() ==> fields@.contains_pair(*(#[trigger] it.seq()[j]).0, *it.seq()[j].1), //# - inner_copy.loop6.aux2
                 forall|name: String| #[trigger] copied@.dom().contains(name) <==> (exists|j: int| 0 <= j < it.index@ && *(#[trigger] it.seq()[j]).0 == name), //# C05 inner_copy.loop6.the_copy_has_the_names_visited_so_far
 //@   endloop
@@ -1990,11 +2106,11 @@ impl TypeChecker {
 //@   endghost
 //@   loop 7
 //@| for ty in args.iter()
-            invariant self.copy_inv(old(self), seen@, ts0, sq, new_ty, old_ty), ids_below(copied@, self.types@.len() as int), self.types@.len() >= l7, //# C02,C07 inner_copy.loop7.aux1
+            invariant self.copy_inv(old(self), seen@, ts0, sq, new_ty, old_ty), seen_ext(m1, seen@), seen_ext(ml, seen@), ids_below(copied@, self.types@.len() as int), self.types@.len() >= l7, //# C02,C07 inner_copy.loop7.aux1
 //@   endloop
 //@   loop 8 binder it
 //@| for (name, (span, ty)) in variants.iter()
-            invariant self.copy_inv(old(self), seen@, ts0, sq, new_ty, old_ty), fields_in_range(copied, self.types@.len() as int), vstd::std_specs::btree::key_obeys_cmp_spec::<String>(), //# C02,C07 inner_copy.loop8.aux1
+            invariant self.copy_inv(old(self), seen@, ts0, sq, new_ty, old_ty), seen_ext(m1, seen@), seen_ext(ml, seen@), fields_in_range(copied, self.types@.len() as int), vstd::std_specs::btree::key_obeys_cmp_spec::<String>(), //# C02,C07 inner_copy.loop8.aux1
                 forall|j: int| 0 <= j < it.seq().len() ==> variants@.contains_pair(*(#[trigger] it.seq()[j]).0, *it.seq()[j].1), //# - inner_copy.loop8.aux2
                 forall|name: String| #[trigger] copied@.dom().contains(name) <==> (exists|j: int| 0 <= j < it.index@ && *(#[trigger] it.seq()[j]).0 == name), //# C05 inner_copy.loop8.the_copy_has_the_names_visited_so_far
 //@   endloop
@@ -2006,7 +2122,7 @@ impl TypeChecker {
 //@   endghost
 //@   loop 9
 //@| for ty in args.iter()
-            invariant self.copy_inv(old(self), seen@, ts0, sq, new_ty, old_ty), ids_below(copied@, self.types@.len() as int), self.types@.len() >= l9, //# C02,C07 inner_copy.loop9.aux1
+            invariant self.copy_inv(old(self), seen@, ts0, sq, new_ty, old_ty), seen_ext(m1, seen@), seen_ext(ml, seen@), ids_below(copied@, self.types@.len() as int), self.types@.len() >= l9, //# C02,C07 inner_copy.loop9.aux1
 //@   endloop
 //@ end
 //@ fn sylt-compiler/src/typechecker.rs copy
